@@ -278,6 +278,22 @@ def run(tier):
     oracle(chk, nests([16, 50, 100, 200] if tier == "quick" else [16, 32, 50, 100, 150, 200]), "nests-deep", uncached_max_depth=0)
     oracle(chk, construct_nests([1, 2, 3]), "construct-nests-small", uncached_max_depth=3)
     oracle(chk, construct_nests([6, 12, 18] if tier == "quick" else [6, 9, 12, 15, 18, 30, 60]), "construct-nests-deep", uncached_max_depth=0)
+    # (T) cross-construct combinations: every member of the PosShape / FnPos families (every consuming position x every
+    # shape of value), and each with a postfix operator inserted after every syntax node (C04's insertion family)
+    import c04
+    ins_texts = c04.boundary_insertions(rng, 0 if tier == "quick" else 20000)
+    ins_kinds = list({tuple(k) for k in lex_kinds(ins_texts) if k})
+    ins_kinds.sort()
+    if tier == "quick" and len(ins_kinds) > 2500:
+        ins_kinds = rng.sample(ins_kinds, 2500)
+    oracle(chk, [list(k) for k in ins_kinds], "family-members-with-postfix-operators", uncached_max_depth=4)
+    # (T) sentences of the grammar enumerated by derivation depth (driver/sentences.py): every term form around every
+    # small expression, with postfix operators, applications and binary operators around them
+    import sentences
+    sent = sentences.sentences()
+    if tier == "quick":
+        sent = rng.sample(sent, 9000)
+    oracle(chk, sent, "grammar-sentences", uncached_max_depth=5)
     # (T) real programs and their token-level mutants
     texts = [t for _, t in corpus.texts()]
     kinds = [k for k in lex_kinds(texts) if k]
